@@ -103,9 +103,20 @@ def c09_cases(rng, n):
             if lit[0] == "int" and T[1] in ("tstr", "text"):
                 T = ("ref", "int")
             case["types"] = [("ctl", "ne", T, ("lit", lit)), ("ctl", "eq", T, ("lit", lit))]
-            case["texts"] = ["%s .ne %s" % (ty_cddl(T), ast.lit_cddl(lit)), ty_cddl(T), "%s .eq %s" % (ty_cddl(T), ast.lit_cddl(lit))]
+            tname = ty_cddl(T)
+            if lit[0] == "int" and rng.random() < 0.5:
+                # the target is a rule of the document: a controlled numeric type, an alias chain to one, a choice of classes
+                tname, case["defs"] = rng.choice([
+                    ("small", "small = uint .le 100\n"), ("tiny", "tiny = small\nsmall = uint .le 100\n"),
+                    ("port", "port = uint .size 1\n"), ("cls", "cls = uint / nint\n"), ("neg", "neg = nint .ge -50\n"),
+                    ("rng", "rng = 2..40\n"), ("al", "al = al2\nal2 = int\n")])
+                case["types"] = [None]
+                case["target_rule"] = tname
+            case["texts"] = ["%s .ne %s" % (tname, ast.lit_cddl(lit)), tname, "%s .eq %s" % (tname, ast.lit_cddl(lit))]
             case["combine"] = "and-not"
             docs = [lit if lit[0] != "int" else ("int", lit[1]), ("int", 0), ("int", lit[1] + 1 if lit[0] == "int" else 5), ("txt", "zz"), ("txt", "a")] + docs[:2]
+            if "defs" in case:
+                docs = docs[:4] + [("int", 500), ("int", -3), ("int", 41), ("int", 2)]
         elif kind == "range":
             lo = rng.choice([0, 1, 2, 10])
             hi = lo + rng.choice([0, 1, 3, 10])
@@ -139,8 +150,15 @@ def c09_cases(rng, n):
             case["texts"] = [name, exp]
             case["combine"] = "equal"
             docs = [gen.rand_scalar(rng, True) for _ in range(5)] + [("arr", []), ("map", [])]
-        case["docs"] = [d for d in docs if ast.is_cbor_value(d)][:7]
+        case["docs"] = [d for d in docs if ast.is_cbor_value(d)][:8]
         out.append(case)
+    # exhaustive small scope for the range identity: every lo <= hi in -3..3 (negative, mixed-sign and zero bounds), every context
+    for lo in range(-3, 4):
+        for hi in range(lo, 4):
+            for ctx in CONTEXTS:
+                out.append({"kind": "range", "ctx": ctx, "types": [("range", lo, hi, True)], "combine": "range", "hi": hi,
+                            "texts": ["%d..%d" % (lo, hi), "%d...%d" % (lo, hi), "%d...%d" % (lo, hi + 1)],
+                            "docs": [("int", x) for x in range(lo - 1, hi + 2)] + [("txt", "a")]})
     return out
 
 
@@ -178,7 +196,7 @@ def run_c09(prop, prop_file, tier, seed):
         wrapT, wrapV = CONTEXTS[c["ctx"]]
         for di, d in enumerate(c["docs"]):
             for ti, T in enumerate(c["texts"]):
-                items.append((wrapT(T), wrapV(d)))
+                items.append((wrapT(T) + c.get("defs", ""), wrapV(d)))
                 index.append((ci, di, ti))
     jv, cv = both_modes(drv, items, rng)
     hist, known_hits, nviol, evals = {}, {}, 0, 0
